@@ -138,7 +138,11 @@ type SimResult struct {
 // Sim runs body inside a fresh synctest bubble under the seeded scheduler.
 // setup is called with the runtime before the scheduler starts and must
 // start at least one task with rt.Go.
-func (c *Case) Sim(setup func(rt *simrt.RT)) *SimResult {
+func (c *Case) Sim(setup func(rt *simrt.RT)) *SimResult { return c.SimWith(c.T, setup) }
+
+// SimWith is Sim with an explicit choice source (used to re-run a recorded
+// schedule while enumerating a fault/cancellation point).
+func (c *Case) SimWith(d simrt.Drawer, setup func(rt *simrt.RT)) *SimResult {
 	var rt *simrt.RT
 	res := &SimResult{}
 	func() {
@@ -149,7 +153,7 @@ func (c *Case) Sim(setup func(rt *simrt.RT)) *SimResult {
 		}()
 		synctest.Test(c.tt, func(t *testing.T) {
 			// everything the scheduler blocks on must be created inside the bubble
-			rt = simrt.New(c.T)
+			rt = simrt.New(d)
 			rt.KeepTrace = c.Replaying
 			res.RT = rt
 			desync.VerifInstall(rt)
